@@ -252,6 +252,7 @@ CHECKS["C09"] = dict(
     name="packed", harness=["checks/packed.c"], libs=LIBS_ALL, engine="E-enum + E-bfs",
     configs={"quick": ["pinned", "debug", "native"], "thorough": ["pinned", "debug", "asan", "native", "bmi", "os", "c11"]},
     shards={"pinned": 16, "debug": 16, "asan": 16},
+    tier_env={"thorough": {"pinned": {"VERIF_GIANT": "1"}}},
     deadline={"quick": 150, "thorough": 1500},
     rule="120 instantiations generated from src/varintPacked.h (every width 1-32 x slot type 8/16/32/64 with width <= slot + "
          "gcd(width, slot), the compact flavour where its automatic slot type satisfies the same rule, and the six parameter "
